@@ -25,6 +25,16 @@ INT_T = ('u8', 'u16', 'u32', 'u64', 'i8', 'i16', 'i32', 'i64')
 
 def corpus():
     d = json.load(open(os.path.join(VERIF, 'harness', CORPUS_DIR, 'schemas.json')))
+
+    def norm(fields):
+        for f in fields or ():
+            # `core::option::Option<T>` / `std::option::Option<T>` is the same type as `Option<T>` (and the derive, which looks at
+            # the last path segment, treats it so): the rules see one spelling
+            f['ty'] = re.sub(r'(?<![A-Za-z0-9_:])(?:core|std)::option::Option<', 'Option<', f['ty'])
+    for s_ in list(d.get('schemas', [])) + [x for p_ in d.get('pairs', []) for x in (p_ if isinstance(p_, list) else [p_.get('a'), p_.get('b')]) if isinstance(x, dict)]:
+        norm(s_.get('fields'))
+        for v in s_.get('variants') or ():
+            norm(v.get('fields'))
     return d
 
 
